@@ -143,7 +143,10 @@ pub fn check(case: &Case, st: &mut Stats) -> Vec<Fail> {
     }
     // (ii) threads
     let n = case.threads.clamp(2, 6) as usize;
-    let baseline: Vec<Option<String>> = sqls.iter().map(|(s, _)| compile_text(s, &case.db).map(|x| x.1)).collect();
+    // rendered text and output schema (names and data types): range propagation must not depend on what the thread
+    // compiled before
+    let sig = |x: (Relation, String)| format!("{}\n-- schema: {}", x.1, serde_json::to_string(&schema_sig(&x.0)).unwrap_or_default());
+    let baseline: Vec<Option<String>> = sqls.iter().map(|(s, _)| compile_text(s, &case.db).map(sig)).collect();
     let results: Vec<Vec<Option<String>>> = std::thread::scope(|sc| {
         let hs: Vec<_> = (0..n)
             .map(|k| {
@@ -155,7 +158,7 @@ pub fn check(case: &Case, st: &mut Stats) -> Vec<Fail> {
                     let mut out = vec![None; sqls.len()];
                     for j in 0..sqls.len() {
                         let i = (j + rot) % sqls.len();
-                        out[i] = compile_text(&sqls[i].0, db).map(|x| x.1);
+                        out[i] = compile_text(&sqls[i].0, db).map(|x| format!("{}\n-- schema: {}", x.1, serde_json::to_string(&schema_sig(&x.0)).unwrap_or_default()));
                     }
                     out
                 })
@@ -169,7 +172,47 @@ pub fn check(case: &Case, st: &mut Stats) -> Vec<Fail> {
             if i < baseline.len() && *t != baseline[i] {
                 let f = if i == 0 { feat.clone() } else { feature(&sqls[i].1.classes) };
                 let (a, b) = first_diff(baseline[i].as_deref().unwrap_or("<none>"), t.as_deref().unwrap_or("<none>"));
-                let what = diff_kind(baseline[i].as_deref(), t.as_deref());
+                // text and schema parts are compared separately
+                let split = |x: Option<&str>| x.map(|s| s.split_once("\n-- schema: ").map_or((s.to_string(), String::new()), |(a, b)| (a.to_string(), b.to_string())));
+                let (bs, ts) = (split(baseline[i].as_deref()), split(t.as_deref()));
+                let what: String = match (&bs, &ts) {
+                    (Some((bt, bsch)), Some((tt, tsch))) => {
+                        if bsch != tsch {
+                            // the first column whose type differs: variant change (int->float) or range change (range:int)
+                            let parse = |s: &str| -> Vec<(String, String)> { serde_json::from_str(s).unwrap_or_default() };
+                            let kind = |t: &str| -> String {
+                                let mut out = String::new();
+                                let mut depth = 0;
+                                for c in t.chars() {
+                                    match c {
+                                        '[' | '{' => depth += 1,
+                                        ']' | '}' => depth -= 1,
+                                        _ if depth == 0 && !c.is_whitespace() => out.push(c),
+                                        _ => {}
+                                    }
+                                }
+                                out
+                            };
+                            let (ca, cb) = (parse(bsch), parse(tsch));
+                            let d = ca
+                                .iter()
+                                .zip(cb.iter())
+                                .find(|(a, b)| a != b)
+                                .map(|(a, b)| if kind(&a.1) != kind(&b.1) { format!("{}->{}", kind(&a.1), kind(&b.1)) } else { format!("range:{}", kind(&a.1)) })
+                                .unwrap_or_else(|| "arity".to_string());
+                            // numeric / empty / null flips are the recorded non-determinism of numeric range propagation; text
+                            // types are kept apart
+                            if d.contains("str") {
+                                format!("schema_text_types:{d}")
+                            } else {
+                                format!("schema_types:{d}")
+                            }
+                        } else {
+                            diff_kind(Some(bt), Some(tt)).to_string()
+                        }
+                    }
+                    _ => "failed".to_string(),
+                };
                 fails.push(Fail::new(format!("C16|thread_differs|{what}|{f}"), format!("thread {k} compiled query {i} differently from the sequential baseline\nquery: {}\nbaseline: {a}\nthread:   {b}", sqls[i].0)));
                 break 'outer;
             }
